@@ -14,8 +14,8 @@ def T(id, rule, edits, **kw):
 
 # ---------------------------------------------------------------------------------------- R01
 M('R01-socp-drop-ip', 'R01',
-  [('socp.py', "        self.cvx_constr = []\n        self.ip_constr = []\n\n    def st",
-    "        self.cvx_constr = []\n\n    def st")], 'socp.Model.reset')        # F01 re-introduced
+  [('socp.py', "        self.cvx_constr = []\n        self.ip_constr = []\n        self.pupdate = True",
+    "        self.cvx_constr = []\n        self.pupdate = True")], 'socp.Model.reset')        # F01 re-introduced
 M('R01-gcp-drop-det', 'R01',
   [('gcp.py', "        self.ip_constr = []\n        self.det_constr = []\n",
     "        self.ip_constr = []\n")], 'gcp.Model.reset|self.det_constr')
@@ -24,8 +24,8 @@ M('R01-gcp-drop-exp', 'R01',
     "        self.cone_constr = []\n        self.other_constr = []\n        self.bounds = []")],
   'gcp.Model.reset|self.exp_constr')
 M('R01-conditional-clear', 'R01',
-  [('socp.py', "        self.cvx_constr = []\n        self.ip_constr = []\n\n    def st",
-    "        self.cvx_constr = []\n        if self.obj is None:\n            self.ip_constr = []\n\n    def st")],
+  [('socp.py', "        self.cvx_constr = []\n        self.ip_constr = []\n        self.pupdate = True",
+    "        self.cvx_constr = []\n        if self.obj is None:\n            self.ip_constr = []\n        self.pupdate = True")],
   'socp.Model.reset|self.ip_constr')
 M('R01-ro-reset-no-rc', 'R01',
   [('ro.py', "        self.dual = None\n        self.rc_model.reset()\n", "        self.dual = None\n")],
@@ -35,8 +35,8 @@ M('R01-new-container', 'R01',
     "            self.cone_constr.append(constr)\n            self.cone_log.append(constr)\n")],
   'self.cone_log')
 T('R01-clear-via-helper', 'R01',
-  [('socp.py', "        self.cvx_constr = []\n        self.ip_constr = []\n\n    def st",
-    "        self.cvx_constr = []\n        self._clear_ip()\n\n    def _clear_ip(self):\n\n        self.ip_constr = []\n\n    def st")])
+  [('socp.py', "        self.cvx_constr = []\n        self.ip_constr = []\n        self.pupdate = True\n        self.dupdate = True\n",
+    "        self.cvx_constr = []\n        self._clear_ip()\n        self.pupdate = True\n        self.dupdate = True\n\n    def _clear_ip(self):\n\n        self.ip_constr = []\n")])
 T('R01-clear-method', 'R01',
   [('gcp.py', "        self.ip_constr = []\n        self.det_constr = []\n",
     "        self.ip_constr.clear()\n        self.det_constr = list()\n")])
@@ -372,3 +372,143 @@ M('R26-eco-pi-masks-swapped', 'R26',
 M('R26-bounds-dual-swapped', 'R26',
   [('lp.py', "                pi = self.model.solution.y['upi'] * self.model.sign", "                pi = self.model.solution.y['lpi'] * self.model.sign ")],
   'upi/lpi')
+
+# ---------------------------------------------------------------------------------------- R11 / R12
+M('R11-neg-keeps-sign', 'R11',
+  [('lp.py', "        return Convex(self.affine_in, -self.affine_out, self.xtype, -self.sign,\n                      self.multiplier,",
+    "        return Convex(self.affine_in, -self.affine_out, self.xtype, self.sign,\n                      self.multiplier,")],
+  'Convex.__neg__')
+M('R11-mul-forgets-abs', 'R11',
+  [('lp.py', "        if self.xtype in 'AMNGIEXLPFKODTC':\n            multiplier = self.multiplier * abs(other)",
+    "        if self.xtype in 'AMNGIEXLPFKODTC':\n            multiplier = self.multiplier * other")], 'Convex.__mul__')
+M('R11-le-guard-dropped', 'R11',
+  [('lp.py', "        left = self - other\n        if left.sign == -1:\n            raise ValueError('Nonconvex constraints.')\n\n        return CvxConstr(left.model, left.affine_in, left.affine_out,",
+    "        left = self - other\n\n        return CvxConstr(left.model, left.affine_in, left.affine_out,")], 'Convex.__le__')
+M('R11-ge-wrong-guard', 'R11',
+  [('lp.py', "        right = other - self\n        if right.sign == -1:\n            raise ValueError('Nonconvex constraints.')\n\n        return CvxConstr(",
+    "        right = other - self\n        if self.sign == -1:\n            raise ValueError('Nonconvex constraints.')\n\n        return CvxConstr(")],
+  'Convex.__ge__')
+M('R11-persp-mul-loses-sign', 'R11',
+  [('lp.py', "        convex = super().__mul__(other)\n\n        return PerspConvex(convex.affine_in, self.affine_scale, convex.affine_out,\n                           convex.xtype, convex.sign, convex.multiplier)",
+    "        convex = super().__mul__(other)\n\n        return PerspConvex(convex.affine_in, self.affine_scale, convex.affine_out,\n                           convex.xtype, self.sign, convex.multiplier)")],
+  'PerspConvex.__mul__')
+M('R11-pw-add-ignores-sign', 'R11',
+  [('lp.py', "        pieces = [piece + other*self.sign for piece in self.pieces]", "        pieces = [piece + other for piece in self.pieces]")],
+  'PiecewiseConvex')
+M('R11-dec-entry-unguarded', 'R11',
+  [('lp.py', "        elif isinstance(left, DecConvex):\n            if left.sign == -1:\n                raise ValueError('Nonconvex constraints.')\n            return DecCvxConstr(left, left.event_adapt)\n        elif isinstance(left, DecPerspConvex):\n            if left.sign == -1:\n                raise ValueError('Nonconvex constraints.')\n            constr = PCvxConstr(left.model,\n                                left.affine_in, left.affine_scale, left.affine_out,\n                                left.multiplier, left.xtype)\n            return DecPCvxConstr(constr, left.event_adapt)\n        elif isinstance(left, ExpPiecewiseConvex):\n            if left.sign == -1:\n                raise ValueError('Nonconvex constraints.')\n            pieces = [piece <= 0 for piece in left.pieces]\n            return ExpPWConstr(left.model, pieces)\n        elif isinstance(left, PiecewiseConvex):\n            if left.sign == -1:\n                raise ValueError('Nonconvex constraints.')\n            pieces = [piece <= 0 for piece in left.pieces]\n            return PWConstr(left.model, pieces)\n\n    def __ge__(self, other):",
+    "        elif isinstance(left, DecConvex):\n            return DecCvxConstr(left, left.event_adapt)\n        elif isinstance(left, DecPerspConvex):\n            if left.sign == -1:\n                raise ValueError('Nonconvex constraints.')\n            constr = PCvxConstr(left.model,\n                                left.affine_in, left.affine_scale, left.affine_out,\n                                left.multiplier, left.xtype)\n            return DecPCvxConstr(constr, left.event_adapt)\n        elif isinstance(left, ExpPiecewiseConvex):\n            if left.sign == -1:\n                raise ValueError('Nonconvex constraints.')\n            pieces = [piece <= 0 for piece in left.pieces]\n            return ExpPWConstr(left.model, pieces)\n        elif isinstance(left, PiecewiseConvex):\n            if left.sign == -1:\n                raise ValueError('Nonconvex constraints.')\n            pieces = [piece <= 0 for piece in left.pieces]\n            return PWConstr(left.model, pieces)\n\n    def __ge__(self, other):")],
+  'DecAffine.__le__')
+M('R11-adaptive-times-random', 'R11',
+  [('lp.py', "        elif isinstance(expr, RoAffine):\n            if not self.fixed:\n                msg = 'Affine decision rule '\n                msg += 'cannot be multiplied by random variables.'\n                raise TypeError(msg)\n            return DecRoAffine(expr, self.event_adapt, 'R')\n\n    def __rmul__(self, other):",
+    "        elif isinstance(expr, RoAffine):\n            return DecRoAffine(expr, self.event_adapt, 'R')\n\n    def __rmul__(self, other):")],
+  'DecAffine.__mul__')
+T('R11-rsub-rewritten', 'R11',
+  [('lp.py', "    def __rsub__(self, other):\n\n        return (-self).__add__(other)\n\n    def __mul__(self, other):\n\n        if not isinstance(other, Real):\n            raise TypeError('Incorrect syntax.')\n\n        if self.xtype in",
+    "    def __rsub__(self, other):\n\n        neg = self.__neg__()\n        return neg + other\n\n    def __mul__(self, other):\n\n        if not isinstance(other, Real):\n            raise TypeError('Incorrect syntax.')\n\n        if self.xtype in")])
+M('R12-ge-not-mirrored', 'R12',
+  [('lp.py', "    def __ge__(self, other):\n\n        left = other - self\n        if isinstance(left, Affine) and not isinstance(left, DecAffine):\n            return LinConstr(left.model, left.linear,\n                             -left.const.reshape((left.const.size,)),\n                             np.zeros(left.const.size))",
+    "    def __ge__(self, other):\n\n        left = self - other\n        if isinstance(left, Affine) and not isinstance(left, DecAffine):\n            return LinConstr(left.model, left.linear,\n                             -left.const.reshape((left.const.size,)),\n                             np.zeros(left.const.size))")],
+  'Affine.__ge__')
+M('R12-roaffine-rsub', 'R12',
+  [('lp.py', "    def __rsub__(self, other):\n\n        return (-self).__add__(other)\n\n    def __mul__(self, other):\n\n        new_affine = self.affine * other",
+    "    def __rsub__(self, other):\n\n        return self.__add__(-other)\n\n    def __mul__(self, other):\n\n        new_affine = self.affine * other")],
+  'RoAffine.__rsub__')
+M('R12-eq-as-inequality', 'R12',
+  [('lp.py', "        left = self - other\n        return RoConstr(left, sense=1)", "        left = self - other\n        return RoConstr(left, sense=0)")],
+  'RoAffine.__eq__')
+M('R12-vars-radd-const', 'R12',
+  [('lp.py', "    def __rsub__(self, other):\n\n        return (-self.to_affine()) + other\n\n    def __neg__(self):\n\n        return - self.to_affine()\n\n    def __le__(self, other):\n\n        cond1",
+    "    def __rsub__(self, other):\n\n        return other\n\n    def __neg__(self):\n\n        return - self.to_affine()\n\n    def __le__(self, other):\n\n        cond1")],
+  'Vars.__rsub__')
+
+# ---------------------------------------------------------------------------------------- R14 / R15 / R27 / R28
+M('R14-fixed-sign', 'R14',
+  [('lp.py', "                primal_const = np.concatenate((primal_const,\n                                               -primal.lb[indices_fixed]))",
+    "                primal_const = np.concatenate((primal_const,\n                                               primal.lb[indices_fixed]))")], 'pattern lb=3 ub=3')   # F04
+M('R14-free-mask', 'R14',
+  [('lp.py', "            indices_free = np.where((primal.lb != 0) &\n                                    (primal.ub != 0))[0]",
+    "            indices_free = np.where((primal.lb != 0) |\n                                    (primal.ub != 0))[0]")], 'pattern')
+M('R14-ub-row-sign', 'R14',
+  [('lp.py', "                matrix_ub = csr_matrix((np.array([1] * nub), indices_ub,", "                matrix_ub = csr_matrix((np.array([-1] * nub), indices_ub,")], 'pattern')
+M('R14-lb-mask-includes-zero', 'R14',
+  [('lp.py', "            indices_ub = np.where((primal.ub != 0) &\n                                  (primal.ub != np.inf))[0]", "            indices_ub = np.where((primal.ub > 0) &\n                                  (primal.ub != np.inf))[0]")],
+  'pattern')
+M('R15-vtype-concat', 'R15',
+  [('lp.py', "            vtype = np.array(['C'] * self.last)\n            for item in self.vars + self.auxs:\n                vtype[item.first:item.first + item.size] = \\\n                    item.vtype if len(item.vtype) == 1 else list(item.vtype)\n",
+    "            vtype = np.concatenate([np.array([item.vtype] * item.size)\n                                    if len(item.vtype) == 1\n                                    else np.array(list(item.vtype))\n                                    for item in self.vars + self.auxs])\n")],
+  'vtype by concatenation')                                                 # F05
+M('R15-integer-aux', 'R15',
+  [('lp.py', "                    aux = self.dvar(1, aux=True)\n                    self.aux_constr.append(affine_in <= aux)", "                    aux = self.dvar(1, 'I', aux=True)\n                    self.aux_constr.append(affine_in <= aux)")],
+  'typed formulation-time variable')
+M('R15-rollback-keeps-last', 'R15',
+  [('socp.py', "                self.aux_ipc = []\n                self.last = self.vars[-1].first + self.vars[-1].size\n", "                self.aux_ipc = []\n")],
+  'aux rollback')
+M('R27-get-by-event-position', 'R27',
+  [('lp.py', "            for eindex in self.event_adapt:\n                s = eindex[0]\n                drule = drule_list[s]", "            for eindex in range(len(self.event_adapt)):\n                drule = drule_list[eindex]")],
+  'lp.DecVar.get')
+M('R27-event-dict-on-overlap', 'R27',
+  [('dro.py', "                    event_indices = [k for k in range(num_event)\n                                     if s in ambset.exp_constr_indices[k]]",
+    "                    event_indices = [event_dict(ambset.exp_constr_indices)[s]]")], 'event_dict')
+M('R27-series-dict-order', 'R27',
+  [('lp.py', "                return pd.Series([outputs[edict[key]]\n                                  for key in range(len(edict))],\n                                 index=ind_label)\n            else:\n                return outputs[0]\n        else:",
+    "                return pd.Series([outputs[edict[key]] for key in edict],\n                                 index=ind_label)\n            else:\n                return outputs[0]\n        else:")],
+  'series order')                                                           # F27
+M('R27-rule-cache', 'R27',
+  [('dro.py', "                    self.var_ev_list[s] = RoAffine(raffine,\n                                                   self.var_ev_list[s],\n                                                   self.ro_model.sup_model)",
+    "                    self.var_ev_list[s] = RoAffine(raffine,\n                                                   self.var_ev_list[0],\n                                                   self.ro_model.sup_model)")],
+  'store self.var_ev_list[s]')
+M('R28-last-bound-wins', 'R28',
+  [('lp.py', "                    ub[b.indices] = np.minimum(b.values, ub[b.indices])", "                    ub[b.indices] = b.values")], 'store into ub')
+M('R28-lower-uses-min', 'R28',
+  [('lp.py', "                    lb[b.indices] = np.maximum(b.values, lb[b.indices])", "                    lb[b.indices] = np.minimum(b.values, lb[b.indices])")],
+  'store into lb')
+T('R28-ufunc-at', 'R28',
+  [('lp.py', "                    ub[b.indices] = np.minimum(b.values, ub[b.indices])", "                    np.minimum.at(ub, b.indices, b.values)")])
+M('R19-ort-boolvar', 'R19',
+  [('ort_solver.py', "          solver.IntVar(max(0, lb[i]), min(1, ub[i]),\n                        'x' + str(i)) if vtype[i] == 'B' else", "          solver.BoolVar('x' + str(i)) if vtype[i] == 'B' else")],
+  'bounds dropped')
+M('R23-eigh-overwrite', 'R23',
+  [('lp.py', "eighvals = eigh(qmat, eigvals_only=True).round(6)", "eighvals = eigh(qmat, eigvals_only=True, overwrite_a=True).round(6)")],
+  'lp.Affine.quad')
+
+# ---------------------------------------------------------------------------------------- R29 / R10 / R06 / R24
+M('R29-repeat-sense', 'R29',
+  [('lp.py', "        sense2 = np.tile(support.sense[:num_rand], num_constr)", "        sense2 = np.repeat(support.sense[:num_rand], num_constr)")],
+  'sense2 layout')
+M('R29-wrong-slice', 'R29',
+  [('lp.py', "            sense3 = np.tile(support.sense[num_rand:], num_constr)", "            sense3 = np.tile(support.sense[:num_rand], num_constr)")],
+  'sense3 layout')
+M('R10-depend-redefinition', 'R10',
+  [('lp.py', "        if self.depend[row_ind, col_ind].any():\n            raise RuntimeError('Redefinition of adaptation is not allowed.')\n\n", "")],
+  'lp.DecRule.adapt')
+M('R10-integer-adapt', 'R10',
+  [('lp.py', "        if self.vtype in ['B', 'I']:\n            raise ValueError('No affine adaptation for integer variables.')\n", "")],
+  'lp.DecVarSub.affadapt')
+M('R10-adapt-after-use', 'R10',
+  [('lp.py', "        if self.roaffine is not None:\n            raise SyntaxError('Adaptation must be defined ' +\n                              'before used in constraints')\n\n", "")],
+  'lp.DecRule.adapt')
+M('R10-adaptive-times-random', 'R10',
+  [('dro.py', "                        if (drule.raffine[row_ind].linear.nnz > 0 or\n                                np.any(drule.raffine[row_ind].const)):\n                            raise SyntaxError('Incorrect affine expressions.')",
+    "                        pass")], 'dro.Model.ro_to_roc')
+M('R10-parent-mask', 'R10',
+  [('lp.py', "        self.rand_adapt[dec_indices_flat, rand_indices_flat] = 1\n        self.dvars.rand_adapt = self.rand_adapt\n", "        self.rand_adapt[dec_indices_flat, rand_indices_flat] = 1\n")],
+  'self.dvars.rand_adapt')
+M('R06-abs-ignores-multiplier', 'R06',
+  [('lp.py', "                if constr.xtype == 'A':\n                    affine_in = constr.affine_in * constr.multiplier\n                    self.aux_constr.append(affine_in +\n                                           constr.affine_out <= 0)",
+    "                if constr.xtype == 'A':\n                    affine_in = constr.affine_in\n                    self.aux_constr.append(affine_in +\n                                           constr.affine_out <= 0)")],
+  'branch A')
+M('R06-exp-scales-argument', 'R06',
+  [('gcp.py', "                    elif constr.xtype == 'X':\n                        affine_out = constr.affine_out * (1/constr.multiplier)\n                        exprs_list = rso_broadcast(constr.affine_in, affine_out)",
+    "                    elif constr.xtype == 'X':\n                        affine_out = constr.affine_out\n                        exprs_list = rso_broadcast(constr.affine_in * constr.multiplier, affine_out)")],
+  'branch X')
+M('R24-sum-keeps-shape', 'R24',
+  [('lp.py', "        linear = sv_to_csr(indices) @ self.linear\n        const = self.const.sum(axis=axis)\n\n        return Affine(self.model, linear, const)",
+    "        linear = sv_to_csr(indices) @ self.linear\n        const = self.const.sum(axis=axis, keepdims=True)\n\n        return Affine(self.model, linear, const)")],
+  'lp.Affine.sum')
+M('R24-rmatmul-order', 'R24',
+  [('lp.py', "        new_const = other @ self.const\n        new_linear = sp_matmul(other, self, new_const.shape) @ self.linear", "        new_const = self.const @ other\n        new_linear = sp_matmul(other, self, new_const.shape) @ self.linear")],
+  'lp.Affine.__rmatmul__')
+T('R24-rename-param', 'R24',
+  [('lp.py', "    def __getitem__(self, item):\n\n        if self.sparray is None:\n            self.sparray = self.sv_array()\n\n        indices = self.sparray[item]\n        linear = sv_to_csr(indices) @ self.linear\n        const = self.const[item]",
+    "    def __getitem__(self, key):\n\n        if self.sparray is None:\n            self.sparray = self.sv_array()\n\n        indices = self.sparray[key]\n        linear = sv_to_csr(indices) @ self.linear\n        const = self.const[key]")])
